@@ -12,7 +12,11 @@ import (
 
 // WorkerLoop runs cases k, k+stride, ... < n starting at the first index >= start.
 func WorkerLoop(ck *Check, tier string, seed uint64, k, stride, start, n int, journal, workDir string, race bool) {
-	debug.SetMaxStack(64 << 20)
+	ms := ck.MaxStackMB
+	if ms == 0 {
+		ms = 64
+	}
+	debug.SetMaxStack(ms << 20)
 	debug.SetMemoryLimit(6 << 30)
 	jf, err := os.OpenFile(journal, os.O_CREATE|os.O_WRONLY|os.O_APPEND, 0644)
 	if err != nil {
